@@ -61,7 +61,7 @@ theorem second_termination_inert (s : Srv) (m sid : Nat) (hx : AMap.lookup s.ses
 /-- recorded finding KF-pppoe-idle-leak, as a theorem about the model: the idle sweep removes an
     addressed session but its address stays recorded as allocated and is not available. -/
 theorem KF_pppoe_idle_leak_witness :
-    let s := run (init false 30) [.padr 1 true, .pap 1 1 .good .accept, .sweep]
+    let s := run (init false 30) [.padr 1 true, .pap 1 1 .good .accept, .sweep []]
     s.sessions = [] ∧ s.alloc.length = 1 ∧ s.avail = [] := by decide
 
 example : (AMap.lookup (run (init false 30) [.padr 1 true, .pap 1 1 .good .accept]).sessions 1).map
